@@ -63,13 +63,18 @@ CLAIMS = {
                  "add_tax_scale (loop invariant over a ghost marginal-rate function) makes the marginal rate everywhere the sum of "
                  "the two; inverse (loop invariant with a ghost partial-sum function) gives net thresholds T(k) - tax(T(k)) and rates "
                  "1/(1 - r(k)), gross bracket k maps onto net bracket k and the summands of calc of the inverse at the net amount "
-                 "are the gross bracket widths (telescoping lemma). Frame: non-in-place operations leave the operand's lists alone."),
-        "note": ("to_average / to_marginal are NOT under contract (float('Inf') thresholds): a bounded stand-in runs the real round "
-                 "trip on a stated grid of scales and bases and is labelled bounded in the evidence. Combination is proved for the "
+                 "are the gross bracket widths (telescoping lemma). to_average (loop invariant with the ghost tax-at-threshold sums): knots 0, "
+                 "the thresholds and +inf, average rate x threshold = tax at each threshold; to_marginal, required to receive exactly "
+                 "that shape, returns the thresholds and rates of the original scale (plus a zero-rate bracket from 0 when it starts "
+                 "above 0), so every summand of calc is the original's. Frame: non-in-place operations leave the operand's lists alone."),
+        "note": ("float('inf') enters as an unspecified real constant above every finite threshold (only comparisons with it are "
+                 "meaningful; stated assumption); to_average / to_marginal are proved for finite thresholds 0 <= t_0 < t_1 < ...; the "
+                 "real round trip additionally runs on a stated grid of scales and bases as a bounded cross-check, labelled bounded in "
+                 "the evidence. Combination is proved for the "
                  "marginal-rate function; tax = integral of the marginal rate is mathematics taken as known. helpers."
                  "combine_tax_scales and rounding options are not decided. Two genuine defects were repaired by fix: commits "
                  "(combine_bracket below the first threshold; to_average with a non-zero first threshold / one bracket)."),
-        "technique": "contract-based deductive verification (loop invariants, ghost rate / partial-sum functions, modular add_bracket contract, inductive lemmas + SMT; one bounded stand-in)",
+        "technique": "contract-based deductive verification (loop invariants, ghost rate / partial-sum functions, modular add_bracket contract, inductive lemmas + SMT; one bounded cross-check)",
         "design_ref": "DESIGN.md section 4 C09, section 3.4",
     },
     "C10": {
@@ -84,7 +89,10 @@ CLAIMS = {
                  "length applies each projector's transform, innermost first (recursive call under its own contract)."),
         "note": ("Also proved: value_nth_person (counting lemmas: positions distinct, below the size, every rank taken), reduce with "
                  "maximum / minimum / logical_and (loop invariant with a ghost 'attained at' function), max / min / all / "
-                 "value_from_first_person as delegations. NOT covered: get_rank, reduce with other reducers, the shortcut resolution of "
+                 "value_from_first_person as delegations; get_rank (2-D matrix of value_nth_person columns, row-wise double argsort with the "
+                 "lemma 'the sorting permutation of a permutation is its inverse', proved by induction): -1 outside the condition, ranks "
+                 "of the members of a group in the condition pairwise distinct, following the criterion, non-negative and downward "
+                 "closed, i.e. a permutation of 0..m-1. NOT covered: reduce with other reducers, the shortcut resolution of "
                  "projectors. numpy enters through "
                  "assumed contracts validated against numpy on every run. One genuine defect (trailing empty groups dropped) was "
                  "repaired by a fix: commit."),
